@@ -253,7 +253,8 @@ def run(tier, seed, t0):
              "convention (modulo trailing whitespace). Non-trivial = multi-line or sequence cases; distinct by content.",
         bounds=bounds,
         assumptions=["lines without CR/LF and compared modulo trailing whitespace (the line protocol right-strips)",
-                     "StreamReader fed directly (no SimNet needed: segmentation is the feed_data granularity)"])
+                     "StreamReader fed directly (no SimNet needed: segmentation is the feed_data granularity)"],
+        conform=False)
 
 
 def replay(path):
